@@ -131,6 +131,9 @@ func Ite64(c bool, a, b uint64) uint64 {
 	}
 	return b
 }
+func SameExpr(a, b uint64) bool        { return a == b }
+func StubReturn64(fn string, v uint64) { panic(unsupportedNative("StubReturn64")) }
+func StubClear()                       {}
 func MutexHeld(m *sync.Mutex) bool {
 	if m.TryLock() {
 		m.Unlock()
